@@ -17,7 +17,7 @@ from vlib.core import Stage, fail
 ID = "C10"
 MANIFEST = {
     "category": "exploration",
-    "text": "Generated-input search: package tables (1-5 package keys mapped to well-formed expressions that may themselves contain time conditions and packages, or mapped to nothing / absent) x condition and AHB expressions using those packages repeatedly, adjacently, with and without repeatability, plus time conditions. The tree from parse_expression_including_unresolved_subexpressions(resolve_packages=True, replace_time_conditions=True) - and from expand_packages / expand_time_conditions applied separately - must equal the tree of the textually substituted string parsed without resolution (exact equality; equality modulo regrouping inside one-operator runs is accepted and counted); a package without expression must abort with NotImplementedError; no coroutine may be left in the tree; exactly one level is expanded. Stage many-packages (enumerated): 25-32 (thorough: 12-120) package occurrences with a suspending resolver, resolved three times on new event loops, compared with the tree of the substituted text.",
+    "text": "Generated-input search: package tables (1-5 package keys mapped to well-formed expressions that may themselves contain time conditions and packages, or mapped to nothing / absent) x condition and AHB expressions using those packages repeatedly, adjacently, with and without repeatability, plus time conditions. The tree from parse_expression_including_unresolved_subexpressions(resolve_packages=True, replace_time_conditions=True) - and from expand_packages / expand_time_conditions applied separately - must equal the tree of the textually substituted string parsed without resolution (exact equality; equality modulo regrouping inside one-operator runs is accepted and counted); a package without expression must abort with NotImplementedError; no coroutine may be left in the tree; exactly one level is expanded. Stage many-packages (enumerated): 25-32 (thorough: 12-120) package occurrences with a suspending resolver, resolved three times on new event loops, compared with the tree of the substituted text. Stage no-packages: expressions without any package resolved with resolve_packages=True / handed to expand_packages while no, another version's, or a matching package resolver is registered; the tree must equal the plain parse.",
     "note": "Trusted: ref.subst_packages / subst_time (regular-expression substitution written from the statement), the plain parsers as judged by C01/C02. Bounded: <= 8/14 atoms per expression, <= 5 packages. Process configuration by shard (vlib/sut.py; recorded in replay files): plain / parse caches preheated beyond their size / warnings attributed to ahbicht raised as errors / logging fully enabled with every record rendered; one event loop per process or a new one per call; five process time zones; the hash seed is the shard number; namesakes of ahbicht's marshmallow schema classes are registered.",
     "technique": "property-based testing with a differential oracle (resolve(s) vs parse(textual substitution of s))",
 }
